@@ -32,6 +32,7 @@ inductive W where
   | x (id : Str)
   | d (sess : Str) (t : Nat)
   | m (msgs : List (Str × Nat))
+  | c (sess : Str)
 
 def parseST (a b : String) : Option (Str × Nat) := do
   let s ← fromHex a
@@ -45,9 +46,11 @@ def parseW (op : String) : Option W :=
   | ["y", k, v] => k.toNat?.map fun k => .y k v
   | ["x", a] => (fromHex a).map .x
   | ["d", a, b] => (parseST a b).map fun p => .d p.1 p.2
+  | ["c", a] => (fromHex a).map .c
   | "m" :: _ =>
     (((op.drop 2).toString.splitOn "+").mapM (fun (m : String) => match m.splitOn ":" with
       | [a, b] => parseST a b
+      | [a, b, size] => if size.toNat?.isSome then parseST a b else none   -- payload size: no effect in the model
       | _ => none)).map W.m
   | _ => none
 
@@ -108,6 +111,8 @@ def runW (ws : List W) (implRes : List String) : Acc := Id.run do
       | none => a := { a with res := a.res ++ ["."] }
     | .x id =>
       a := { a with r := step a.r (.unsubRaw id), ops := a.ops ++ [.unsubRaw id], res := a.res ++ ["."] }
+    | .c sess =>
+      a := { a with r := step a.r (.close sess), ops := a.ops ++ [.close sess], res := a.res ++ ["."] }
     | .d sess t =>
       let r' := step a.r (.deliver sess t)
       a := { a with r := r', ops := a.ops ++ [.deliver sess t], res := a.res ++ [showNats (lastRecv r')] }
@@ -181,7 +186,9 @@ def handle (op : String) (args : List String) (impl : String) : Option Verdict :
     let wfOk := wfIn a.ops
     let freshOk := fresh a.ops
     let nsub := a.subs.length
-    let tag := s!"run:wf={wfOk}:fresh={freshOk}:subs={min nsub 3}:dashed={a.subs.any fun x => x.1.contains dash}:live={min a.r.st.length 3}:cancel={a.ops.any fun o => match o with | .unsub _ => true | _ => false}"
+    let big := spec.splitOn ":" |>.any fun x => match x.splitOn "+" with | n :: _ => (n.splitOn ";").head?.bind String.toNat? |>.any (· > 3000) | _ => false
+    let closes := a.ops.any fun o => match o with | .close _ => true | _ => false
+    let tag := s!"run:wf={wfOk}:fresh={freshOk}:big={big}:close={closes}:subs={min nsub 3}:dashed={a.subs.any fun x => x.1.contains dash}:live={min a.r.st.length 3}:cancel={a.ops.any fun o => match o with | .unsub _ => true | _ => false}"
     -- the property predicate on the implementation's observations: fresh identifiers ∧ exact deliveries ∧ exact
     -- retention (no claim for histories with undeclared types or foreign ids)
     let ok := !wfOk || (match implParts, implDeliveries ws implRes with
